@@ -940,7 +940,7 @@ func (fr *Frame) indexAddr(n *vnode, i *ssa.IndexAddr) *Val {
 		x.vc.Oblige("safety.index", "", n.reach, g, x.pos(i.Pos()), "index out of range")
 		x.vc.Assume(Implies(n.reach, g))
 		es := x.eng.SortOf(u.Elem())
-		return &Val{P: &Place{Comp: memComp(es), Elem: es, Ref: SArr(a.T), Idx: Add(SOff(a.T), idx), Ty: u.Elem()}, Ty: i.Type()}
+		return &Val{P: &Place{Comp: memComp(es), Elem: es, Ref: SArr(a.T), Idx: ElemIdx(SOff(a.T), idx, es), Ty: u.Elem()}, Ty: i.Type()}
 	case *types.Pointer:
 		arr := u.Elem().Underlying().(*types.Array)
 		g := And(Ge(idx, IntLit(0)), Lt(idx, IntLit(arr.Len())))
